@@ -117,6 +117,7 @@ structure Obj where
   resumes : Nat       -- ghost: number of `Resume()` calls
   execs : Nat := 0    -- ghost: executions of the notification command / the check command for this object
   stash : Nat := 0    -- length of a Notification's `stashed_notifications` (notification.ti:80)
+  reqs : Nat := 0     -- ghost: notifications this node REQUESTED for this checkable out of `Checkable::FireSuppressedNotificationsTimer`
   deriving DecidableEq, Repr
 
 /-- configobject.cpp:444-459. -/
@@ -166,6 +167,21 @@ def ntimerObj (updated endpoint : Bool) (c : ObjCfg) (o : Obj) : Obj :=
     harness have no zone of their own); a due check of an object in the idle set is executed, any other is not. -/
 def dueObj (c : ObjCfg) (o : Obj) : Obj :=
   if c.kind == .checkable && c.active && !o.paused then { o with execs := o.execs + 1 } else o
+
+/-- checkable-notification.cpp:132-250 `Checkable::FireSuppressedNotifications()`, run for every Host/Service by the 5 s timer
+    `Checkable::FireSuppressedNotificationsTimer` (:252-261), for a checkable on which a suppressed Problem notification is pending
+    and every other re-send condition holds (notifications enabled, hard state that differs from the state before the
+    suppression, no downtime / acknowledgement / unreachable parent any more, no check due soon, no recent parent recovery).
+    :134 inactive ⇒ nothing.  :137 **paused ⇒ nothing** (the member in charge of the checkable requests the notification and relays
+    it to the other one, ClusterEvents::SendNotificationsHandler).  Otherwise :215 `OnNotificationsRequested` once. -/
+def fireObj (c : ObjCfg) (o : Obj) : Obj :=
+  if c.kind == .checkable && c.active && !o.paused then { o with reqs := o.reqs + 1 } else o
+
+/-- An object created while the process is running (configobjectutility.cpp:255-300 `CreateObject` → configitem.cpp `ActivateItems`
+    with `runtimeCreated = true` → configobject.cpp:361-377 `Activate(true)`; the same path on the other zone member through
+    `config::UpdateObject`): a new object like any other — `paused` by default, resumed by `Activate()` only if it runs everywhere.
+    Nothing of an earlier object of that name is left. -/
+def created (c : ObjCfg) : Obj := fresh c
 
 /-- apilistener-authority.cpp:63 — the guard of the loop body. -/
 def touched (c : ObjCfg) : Bool := c.active && c.runOnce
@@ -218,6 +234,19 @@ def dueList (i : Nat) : Nat → List ObjCfg → List Obj → List Obj
 def Node.due (cfgs : List ObjCfg) (n : Node) (i : Nat) : Node :=
   { n with objs := dueList i 0 cfgs n.objs }
 
+/-- `f` on the object at position `i` (`k` = position of the head). -/
+def atList (f : ObjCfg → Obj → Obj) (i : Nat) : Nat → List ObjCfg → List Obj → List Obj
+  | k, c :: cs, o :: os => (if k == i then f c o else o) :: atList f i (k + 1) cs os
+  | _, _, os => os
+
+/-- The suppressed-notifications timer runs while a suppressed notification is pending on object number `i` (only). -/
+def Node.fire (cfgs : List ObjCfg) (n : Node) (i : Nat) : Node :=
+  { n with objs := atList fireObj i 0 cfgs n.objs }
+
+/-- Object number `i` is deleted and created anew at runtime. -/
+def Node.create (cfgs : List ObjCfg) (n : Node) (i : Nat) : Node :=
+  { n with objs := atList (fun c _ => created c) i 0 cfgs n.objs }
+
 /-! ### two members, one object: the system the whole-trace theorem is about -/
 
 inductive Side | A | B
@@ -235,11 +264,13 @@ inductive Ev
   | request (s : Side)                -- a notification is requested on `s` for the object's checkable
   | ntimer (s : Side)                 -- the notification timer runs on `s`
   | due (s : Side)                    -- this object (a checkable) becomes due for a check on `s`
+  | fire (s : Side)                   -- the suppressed-notifications timer runs on `s` while one is pending on this object (a checkable)
+  | create (s : Side)                 -- this object is created at runtime on `s` (a new object; an older one of that name is gone)
   deriving DecidableEq, Repr
 
 def Ev.side : Ev → Side
   | .boot s _ _ => s | .link s _ _ => s | .upd s _ => s | .idle s => s
-  | .request s => s | .ntimer s => s | .due s => s
+  | .request s => s | .ntimer s => s | .due s => s | .fire s => s | .create s => s
 
 structure Half where
   conns : List Nat       -- numbers of the connections to the other member that are attached on this side
@@ -278,6 +309,8 @@ def stepHalf (l : Layout) (nA nB : Name) (c : ObjCfg) (s : Side) (h : Half) : Ev
   | .request _ => { h with obj := requestObj h.updated c h.obj }
   | .ntimer _ => { h with obj := ntimerObj h.updated (l != .noZone) c h.obj }
   | .due _ => { h with obj := dueObj c h.obj }
+  | .fire _ => { h with obj := fireObj c h.obj }
+  | .create _ => { h with obj := created c }
 
 def step (l : Layout) (nA nB : Name) (c : ObjCfg) (p : Pair) (e : Ev) : Pair :=
   match e.side with
